@@ -108,6 +108,7 @@ def run_conc(prop, tier, seed, replay, extra=None, gate0=None):
         cid = '%s_%d' % (prop.lower(), k)
         init = None
         images = None
+        alloc0 = None
         if rng.random() < 0.3:
             # independently built image: COW over backing-provided / compressed clusters under the scheduler
             import foreign
@@ -117,12 +118,38 @@ def run_conc(prop, tier, seed, replay, extra=None, gate0=None):
                 descs.append(foreign.backing_desc(rng, top))
             try:
                 images, _ = foreign.write_images(d, cid, descs)
-                init = foreign.Truth(descs).flat().blk
+                fl0 = foreign.Truth(descs).flat()
+                init = fl0.blk
+                alloc0 = sorted(x for x in fl0.alloc if (x + 1) * (1 << top.cluster_bits) <= top.size)
                 g = hist.Geom(top.cluster_bits, top.refcount_order, top.size, 9, l2, rb, punch=g.punch)
             except ValueError:
                 images = None
-        text, batches, fsw = conc.build_case(cid, g, rng, rng.choice([1, 2, 3]), images=images, faults_p=(0.25 if prop == 'C18' else 0.0))
+        text, batches, fsw = conc.build_case(cid, g, rng, rng.choice([1, 2, 3]), images=images, faults_p=(0.25 if prop == 'C18' else 0.0),
+                                             alloc=(alloc0 if images else None))
         cases.append({'cid': cid, 'g': g, 'text': text, 'batches': batches, 'fsw': fsw, 'init': init, 'images': images})
+    if prop == 'C18':
+        # many tiny cases of one shape: right after open, a discard (its refcount update has to load the refblock slice)
+        # next to exactly one flush_meta, over a spread of start delays and completion orders
+        import foreign
+        pool = []
+        for i in range(8):
+            top = foreign.rand_desc(rng, with_backing=False, allow_v2=False, cbs=[9, 9, 10], nclusters=rng.choice([8, 20, 40]))
+            try:
+                imgs, _ = foreign.write_images(d, '%s_o%d' % (prop.lower(), i), [top])
+            except ValueError:
+                continue
+            fl0 = foreign.Truth([top]).flat()
+            al = sorted(x for x in fl0.alloc if (x + 1) * (1 << top.cluster_bits) <= top.size)
+            if al:
+                pool.append((top, imgs, fl0, al))
+        for j in range(400 if tier == 'quick' else 3000):
+            if not pool:
+                break
+            top, imgs, fl0, al = pool[j % len(pool)]
+            g = hist.Geom(top.cluster_bits, top.refcount_order, top.size, 9, (9, 2 << 9), (9, 2 << 9), punch=rng.choice([1, 0]))
+            cid = '%s_o%d_%d' % (prop.lower(), j % len(pool), j)
+            text, batches, fsw = conc.build_case(cid, g, rng, 1, images=imgs, alloc=al, open_only=True)
+            cases.append({'cid': cid, 'g': g, 'text': text, 'batches': batches, 'fsw': fsw, 'init': fl0.blk, 'images': imgs})
     obs = seqrun.run_cases_text(d, [(c['cid'], c['text']) for c in cases], timeout=1200)
     finds = []
     stats = collections.Counter()
